@@ -150,7 +150,7 @@ func runCatalog(id string, toks []string) (res string) {
 						}
 					}
 				}
-				out = append(out, fmt.Sprintf("%s.%d:%d:%d:%s:%s", name, vi, len(a.Services), n, strings.Join(svcs, "/"), strings.Join(vals, ",")))
+				out = append(out, fmt.Sprintf("%s.%d:%d:%d:%s:%s:%d", name, vi, len(a.Services), n, strings.Join(svcs, "/"), strings.Join(vals, ","), a.Type))
 			}
 			add("New", accessory.New(info, accessory.TypeOther))
 			add("Bridge", accessory.NewBridge(info).Accessory)
